@@ -109,8 +109,9 @@ func writeUnionClasses(w *formatting.IndentedWriter, td dsl.TypeDefinition, unio
 			if node.Cases.IsUnion() {
 				unionClassName, typeParameters := common.UnionClassName(node)
 				if _, ok := unions[unionClassName]; !ok {
-					if _, isNamedType := td.(*dsl.NamedType); isNamedType {
+					if nt, isNamedType := td.(*dsl.NamedType); isNamedType && nt.Type == dsl.Type(node) {
 						// This is a named type defining a union, so we will use the named type's name instead
+						// (only for the union that is the named type's own type, not for unions nested in it)
 						unionClassName = td.GetDefinitionMeta().Name
 					}
 					if len(unions) == 0 {
@@ -1005,6 +1006,7 @@ func writeGetDTypeFunc(w *formatting.IndentedWriter, ns *dsl.Namespace) {
 					if node.Cases.IsUnion() {
 						unionClassName, _ := common.UnionClassName(node)
 						nt, isNamedType := td.(*dsl.NamedType)
+						isNamedType = isNamedType && nt.Type == dsl.Type(node)
 						if isNamedType {
 							// This is a named type defining a union, so we will use the named type's name instead
 							unionClassName = td.GetDefinitionMeta().Name
@@ -1049,11 +1051,12 @@ func writeGetDTypeFunc(w *formatting.IndentedWriter, ns *dsl.Namespace) {
 					}
 				}
 
-				fmt.Fprintf(w, "dtype_map.setdefault(%s, %s)\n", common.TypeSyntaxWithoutTypeParameters(td, contextNamespace), typeDefinitionDTypeExpression(td, context))
-
 				if !isUnion {
+					// before the definition itself: its dtype expression may need the dtypes of unions nested in it
 					writeUnionDtypeIfNeeded(td, unions, contextNamespace)
 				}
+
+				fmt.Fprintf(w, "dtype_map.setdefault(%s, %s)\n", common.TypeSyntaxWithoutTypeParameters(td, contextNamespace), typeDefinitionDTypeExpression(td, context))
 			}
 
 			for _, p := range ns.Protocols {
